@@ -291,7 +291,8 @@ const META: Meta = Meta {
 
 pub fn run(env: &Env, replay: Option<&Path>) -> i32 {
     let mut report = Report::new();
-    let subs: [&dyn DynSub; 1] = [&StrictDecode];
+    let cold = crate::coldstart::ColdStart("C06");
+    let subs: [&dyn DynSub; 2] = [&StrictDecode, &cold];
     if let Some(p) = replay {
         if let Err(e) = replay_file(env, &subs, p, &mut report) {
             eprintln!("harness: {}", e);
@@ -301,5 +302,8 @@ pub fn run(env: &Env, replay: Option<&Path>) -> i32 {
     }
     replay_corpus(env, &subs, &mut report);
     drive(env, &StrictDecode, env.tier.pick(300_000, 6_000_000), &mut report);
+    // fresh processes whose threads make their first calls at the same moment
+    report.notes.push(crate::coldstart::NOTE.to_string());
+    drive(env, &cold, env.tier.pick(240, 6000), &mut report);
     finish(env, report, &META)
 }
